@@ -137,3 +137,68 @@ def rule(prog, r):
         r.unproved("state-cap:%s" % name, "state cap reached; paths explored up to the cap only")
     r.info("functions-analysed", "%d int functions of parser.c, %d may return the sentinel" % (n_fns, len(may)))
     return n_fns
+
+
+# ------------------------------------------------------------------------------------------ skipping directives are consumed
+def _is_handler_call(n):
+    return n.get("callee") is None and n.get("fn") is not None and "handle_" in (path(strip(n["fn"])) or "")
+
+
+class DirectiveInterp(EofInterp):
+    def call(self, st, n, argvals):
+        callee = n.get("callee")
+        if callee in self.may or _is_handler_call(n):
+            return [(st, None)]             # a handler may answer any directive
+        return [(st, self.not_eof)]
+
+
+def directive_rule(prog, r, unit="parser.c"):
+    """A handler's answer SKIP_CURRENT / SKIP_SIBLINGS is acted upon (through the skip depth) by the production that receives
+    it and is never handed up: the same may-return analysis, with handler calls as the only sources, over the productions
+    that (transitively) call handlers.  CIF_TRAVERSE_END and error codes are meant to unwind and are not judged."""
+    direct = {f.name for f in prog.all_functions() if f.unit == unit and any(_is_handler_call(n) for (b, i, rr, n) in f.calls())}
+    hf = set(direct)
+    changed = True
+    while changed:
+        changed = False
+        for f in prog.all_functions():
+            if f.unit == unit and f.name not in hf and prog.callees(f) & hf:
+                hf.add(f.name)
+                changed = True
+    if len(direct) < 3:
+        raise Broken("fewer than 3 productions with handler calls found in %s" % unit)
+    n = 0
+    for dname in ("CIF_TRAVERSE_SKIP_CURRENT", "CIF_TRAVERSE_SKIP_SIBLINGS"):
+        val = prog.macro_int(dname)
+        if val is None:
+            raise Broken("%s is not defined" % dname)
+        fns = [f for f in prog.all_functions() if f.name in hf and "int" in (f.ret or "")]
+        may, leaks = set(), {}
+        changed = True
+        rounds = 0
+        while changed and rounds < 10:
+            changed = False
+            rounds += 1
+            for f in fns:
+                if f.name in may:
+                    continue
+                it = DirectiveInterp(prog, f, may, val)
+                it.run()
+                if it.overflow:
+                    r.unproved("state-cap:%s:%s" % (f.name, dname), "state cap reached")
+                if it.leaks:
+                    may.add(f.name)
+                    leaks[f.name] = it.leaks
+                    changed = True
+        for f in fns:
+            n += 1
+            if f.name not in may:
+                r.ok("%s:%s" % (f.name, dname), "never returned")
+            elif not ((prog.callees(f) & may) - {f.name}):
+                node, st = leaks[f.name][0]
+                r.violation(f.file, f.name, node.get("l"), "directive-returned:%s:%s" % (f.name, dname),
+                            "%s can return %s (%d) received from a handler: the directive is not consumed where it was answered, so "
+                            "the callers unwind (a negative code ends the whole parse quietly) instead of skipping what the handler "
+                            "asked to skip" % (f.name, dname, val), path=["L%s" % x for x in st.trail_lines()][-25:])
+    return n
+
